@@ -4,6 +4,8 @@ from props import COMMON_TRUST
 def router_nontrivial(tok, res):
     if tok[0] in ("get", "mget", "hreq"):
         return res != "none"
+    if tok[0] in ("copen", "creq"):
+        return res[:3] in ("h1:", "h2:") and not res.endswith(":none") or res == "pri"
     if tok[0] in ("add", "madd"):
         return res == "conflict"
     if tok[0] == "spell":
@@ -14,6 +16,8 @@ def router_nontrivial(tok, res):
 def vreg_nontrivial(tok, res):
     if tok[0] in ("hreq", "creq", "sreq", "areq"):
         return res != "none"
+    if tok[0] in ("hopen", "hnext"):
+        return res[:3] in ("h1:", "h2:") and not res.endswith(":none") or res == "pri"
     if tok[0] == "run":
         return res not in ("ok", "busy")
     return False
@@ -21,7 +25,7 @@ def vreg_nontrivial(tok, res):
 
 PROP = {
         "level": "proof",
-        "gens": [],
+        "gens": ["RouteCtxFacts"],
         "theorems": [
             "Frp.C06.inv_reachable", "Frp.C06.get_longest", "Frp.C06.get_none",
             "Frp.C06.getVhost_some", "Frp.C06.getVhost_none", "Frp.C06.getVhost_case",
@@ -41,21 +45,43 @@ PROP = {
             # credentials of the route a request is forwarded along (http groups; clause of C07 / C13, KNOWN finding)
             "Frp.C06.uniform_sound", "Frp.C06.httpGroup_checked_uniform", "Frp.C06.httpGroup_creds_checked_sound",
             "Frp.C06.httpGroup_creds_partial", "Frp.C06.httpGroup_creds_witness",
+            # requests SHARING A CLIENT CONNECTION (keep-alive, h2c by upgrade / prior knowledge) interleaved with registration
+            # changes, idle backend connections re-used by the transport (Props/C06Conn.lean over Model/HttpConn.lean)
+            "Frp.C06.wrapped_own_route", "Frp.C06.serveHTTP_own_route", "Frp.C06.conn_history_eq_ref",
+            "Frp.C06.conn_structure_irrelevant", "Frp.C06.regInv_reachable", "Frp.C06.conn_request_most_specific",
+            "Frp.C06.unregister_gone", "Frp.C06.former_owner_never_answers",
+            "Frp.C06.trusting_context_user_witness", "Frp.C06.trusting_context_owner_witness",
+            "Frp.C06.source_handlers_resolve_first",
         ],
+        "extra_targets": ["Frp.Props.C06Conn"],
         "engines": [
             {"name": "router", "quick_n": 20000, "thorough_n": 100000, "thorough_seeds": 6,
              "nontrivial": router_nontrivial,
-             "result_class": lambda r: "hit" if r.isdigit() else ("host" if r.startswith("x") else r[:10])},
+             "result_class": lambda r: "hit" if r.isdigit() else ("host" if r.startswith("x") else
+                                      (r[:3] + ("none" if r.endswith(":none") else "hit") if r[:3] in ("h1:", "h2:") else r[:10]))},
             {"name": "vreg", "quick_n": 8000, "thorough_n": 40000, "thorough_seeds": 6,
              "nontrivial": vreg_nontrivial,
              "result_class": lambda r: "hit" if r.isdigit() else ("dump" if r.startswith("http[") else
-                                                                  ("hit:" + r.split(":", 1)[1] if r[:1].isdigit() and ":" in r else r[:10]))},
+                                                                  ("hit:" + r.split(":", 1)[1] if r[:1].isdigit() and ":" in r else
+                                                                   (r[:3] + ("none" if r.endswith(":none") else "hit") if r[:3] in ("h1:", "h2:") else r[:10])))},
         ],
         "rule": "router engine: generated add/del/get histories over an overlap-rich alphabet, real requests through "
-                "ServeHTTP with Host spellings combining letter case, trailing dot and port suffix; vreg engine: generated "
+                "ServeHTTP with Host spellings combining letter case, trailing dot and port suffix, every registration with a "
+                "backend of its own that ANSWERS (so the transport pools and re-uses backend connections); client connections to a "
+                "real http.Server in front of the reverse proxy as a class — HTTP/1.1 keep-alive, h2c opened by the RFC 7540 "
+                "section 3.2 upgrade (asked again on every request until it succeeds), h2c with prior knowledge (with and without a "
+                "route the PRI pseudo request resolves to) —, 1 to 7 requests / streams each (the same request again, the same host "
+                "and path with another / no user, another path, aimed at another registered route, free), several connections open "
+                "at once and across unrelated operations, interleaved with registration changes next to the routes they use (same "
+                "triple again, removed, removed and registered anew = another owner, user-restricted / unrestricted sibling, "
+                "other location); the answer is the registration whose backend answered; vreg engine: generated "
                 "histories of real proxy Run/Close (http incl. groups, https, tcpmux; multi-domain, multi-location, "
                 "subdomain, colliding names, httpUser/httpPassword) interleaved with real HTTP requests (with and without a "
-                "basic-auth pair), TLS ClientHellos and CONNECTs and table dumps; request lines are REPEATED byte for byte "
+                "basic-auth pair), TLS ClientHellos and CONNECTs and table dumps; client connections (keep-alive, h2c upgrade, h2c prior "
+                "knowledge) to a real http.Server in front of the ResourceController's reverse proxy whose requests / streams (the same "
+                "again, same host and path with another user, aimed at other live proxies, remembered probes) alternate with proxies that "
+                "start (user-restricted / unrestricted sibling of the proxy the connection was opened through, group members, any) or "
+                "close (that proxy, coming back as a new instance or not); request lines are REPEATED byte for byte "
                 "after later registration changes, and bracketed changes put the same requests immediately before and after "
                 "each kind of change (plain proxy starts / closes, first member of a group, further member, member leaves, "
                 "last member leaves) and after its undoing; a case is non-trivial when a request reaches a proxy / a lookup returns a route, a registration is "
@@ -63,13 +89,22 @@ PROP = {
         "trusted": COMMON_TRUST + [
             "model Frp/Model/Router.lean, Frp/Model/Host.lean written by hand; tied by the router engine "
             "(real vhost.Routers via HTTPReverseProxy.Register/UnRegister/GetRouteConfig/ServeHTTP and vhost.Muxer.Listen/getListener, CanonicalHost)",
+            "model Frp/Model/HttpConn.lean (ServeHTTP / authorize / injectRequestInfoToCtx / the handler wrapped by h2c.NewHandler / Rewrite's "
+            "pool key / DialContext -> CreateConnection; client connections, the transport's idle backend connections) written by hand; its "
+            "policy `never` (no handler takes inherited context values for the request's) is tied to the source by the regenerated "
+            "Gen/RouteCtxFacts (go/ast: order of resolve / read events per handler; name-based call graph inside pkg/util/vhost) and "
+            "C06.source_handlers_resolve_first, and to the behaviour by the router engine's copen / creq / cclose ops (real http.Server, "
+            "x/net/http2 Framer client, net/http's and x/net's h2c / http2 server code as vendored)",
             "model Frp/Model/VhostReg.lean (HTTPProxy/HTTPSProxy/TCPMuxProxy Run+Close, HTTPGroupController) written by hand; tied by the "
             "vreg engine (real proxy.NewProxy(...).Run()/Close() on a real controller.ResourceController, requests through the real "
-            "HTTPReverseProxy.ServeHTTP, HTTPS muxer and tcpmux CONNECT muxer; which proxy instance is asked for a work connection)",
+            "HTTPReverseProxy.ServeHTTP — directly and through an http.Server with keep-alive / h2c client connections (hopen / hnext / hshut over "
+            "Model/HttpConn) —, HTTPS muxer and tcpmux CONNECT muxer; which proxy instance is asked for a work connection)",
         ],
         "assumptions": [
             "strings.ToLower is modelled for ASCII only; non-ASCII hosts are counted and skipped",
-            "keep-alive reuse of pooled backend connections is not covered by the router model",
+            "the transport's pool is modelled as a set of (pool key, backend) pairs with an arbitrary choice between an idle connection "
+            "and a new one per request; IdleConnTimeout / MaxIdleConnsPerHost only restrict that choice; requests of the connection ops "
+            "are sequential (one stream at a time), GET without a body, request targets starting with '/'",
             "credentials (httpUser/httpPassword) enter only as far as they decide whether a request is forwarded at all (401) and, "
             "for http groups, whose credentials the group's route carries (KNOWN finding C06-httpgroup-member-credentials-ignored); "
             "the credential clauses themselves are C07's",
@@ -83,6 +118,6 @@ META = {
         "engine": "lean+harness(router,vreg)",
         "design_ref": "DESIGN.md §6 C06",
         "technique": "Lean 4 invariant + refinement-to-spec proof over all add/del histories; differential correspondence with the real vhost.Routers / getVhost / Muxer.getListener",
-        "text": "Proof: for every reachable route table (any history of registrations/removals) and every host, path, user, the modelled lookup returns a registered matching route that is at least as specific (host pattern, then user restriction, then location length) as every other registered matching route, and none iff nothing matches; duplicates are refused leaving the table unchanged; removal affects only the removed triple; every spelling of a plain host name (any letter case, optional trailing dot, optional port suffix) canonicalises to the lower-case name and is routed like it. The same holds through the server-side registration layer: for every history of proxy Run/Close (http with customDomains x locations + subdomain, group and non-group path with rollback, https, tcpmux) the route table is exactly the union of the live proxies' (domain, location, user) triples, a refused Run leaves the live set unchanged, Close removes exactly the proxy's own routes from the next lookup on, and every lookup hands the request to a live proxy whose route is the most specific live match. Histories interleaved with traffic: a request leaves no trace in the state, the answers given during any history are, request by request, the lookup in the table produced by the registration changes preceding the request (whatever was asked or answered before, however often), hence every request of every history is answered by the most specific route live at that moment. For http load-balancing groups the credentials of the forwarding route are the first member's: proved unsound for members configured differently (witness; KNOWN finding, clause of C07/C13), sound for uniformly configured members and, for all join/leave histories, once joins compare credentials (repaired model behind a switch). Kernel-checked, axioms propext/Classical.choice/Quot.sound only. The model is hand-written and tied to the code by replaying 20k (quick) generated operations per run on the real Routers/HTTPReverseProxy(ServeHTTP)/Muxer and 8k operations on real proxy.NewProxy Run/Close with real routed HTTP/TLS/CONNECT requests (identical requests repeated across every kind of registration change), and on the models, with the Lean property predicate evaluated on the implementation's own answers.",
-        "note": "Trusted: Lean kernel; the hand-written models of router.go/getVhost/getListener/CanonicalHost and of the Run/Close registration code (server/proxy/http.go, https.go, tcpmux.go, server/group/http.go) and the correspondence harness generators (ASCII hosts; non-ASCII skipped and counted). Not covered by the theorem: reuse of pooled keep-alive backend connections across re-registration (net/http Transport), the golib mux dispatch when the vhost port is shared with the control port.",
+        "text": "Proof: for every reachable route table (any history of registrations/removals) and every host, path, user, the modelled lookup returns a registered matching route that is at least as specific (host pattern, then user restriction, then location length) as every other registered matching route, and none iff nothing matches; duplicates are refused leaving the table unchanged; removal affects only the removed triple; every spelling of a plain host name (any letter case, optional trailing dot, optional port suffix) canonicalises to the lower-case name and is routed like it. The same holds through the server-side registration layer: for every history of proxy Run/Close (http with customDomains x locations + subdomain, group and non-group path with rollback, https, tcpmux) the route table is exactly the union of the live proxies' (domain, location, user) triples, a refused Run leaves the live set unchanged, Close removes exactly the proxy's own routes from the next lookup on, and every lookup hands the request to a live proxy whose route is the most specific live match. Histories interleaved with traffic: a request leaves no trace in the state, the answers given during any history are, request by request, the lookup in the table produced by the registration changes preceding the request (whatever was asked or answered before, however often), hence every request of every history is answered by the most specific route live at that moment. Requests sharing a client connection (HTTP/1.1 keep-alive; streams of an h2c connection opened by the upgrade or with prior knowledge, whose contexts inherit the opening request's route information) and the transport's idle backend connections: the handler wrapped by h2c.NewHandler, handed ANY inherited context, answers a request from the backend of the registration getVhost finds for the request's own host, path and user in the table at that moment; for every history of registrations, connections of every kind, requests on them and every choice of the transport between an idle and a new backend connection the answers equal those of a server without connections, contexts and pool (so the connection's earlier streams do not enter), every one is the most specific registered match, registrations are numbered apart, and once a route is un-registered no later request — on a kept connection, as a later stream, over a pooled backend connection — is answered by the former owner, re-registered triple or not; a handler that trusts the inherited context when host, path and peer agree violates both (witnesses), and the source is read (go/ast) to show that ServeHTTP and the wrapped handler resolve unconditionally before anything reads the context keys. For http load-balancing groups the credentials of the forwarding route are the first member's: proved unsound for members configured differently (witness; KNOWN finding, clause of C07/C13), sound for uniformly configured members and, for all join/leave histories, once joins compare credentials (repaired model behind a switch). Kernel-checked, axioms propext/Classical.choice/Quot.sound only. The model is hand-written and tied to the code by replaying 20k (quick) generated operations per run on the real Routers/HTTPReverseProxy(ServeHTTP)/Muxer — incl. about 2k requests on keep-alive / h2c client connections to a real http.Server with answering, pooled backends — and 8k operations on real proxy.NewProxy Run/Close with real routed HTTP/TLS/CONNECT requests (identical requests repeated across every kind of registration change), and on the models, with the Lean property predicate evaluated on the implementation's own answers.",
+        "note": "Trusted: Lean kernel; the hand-written models of router.go/getVhost/getListener/CanonicalHost and of the Run/Close registration code (server/proxy/http.go, https.go, tcpmux.go, server/group/http.go) and the correspondence harness generators (ASCII hosts; non-ASCII skipped and counted). Not covered by the theorem: net/http's Transport and x/net's h2c / http2 server themselves (modelled: pool keyed by the context's RouteConfig, later streams entering the wrapped handler with the opening request's context; exercised for real by the router engine), concurrent streams of one connection, the golib mux dispatch when the vhost port is shared with the control port.",
     }
